@@ -52,6 +52,69 @@ theorem propagator_history_independent (A : Alg F) (L : Laws A) (cte : Bool)
   rw [(call_good L i1 (fun hh => hc (by rw [c1] at hh; exact hh)) t s).1,
       (call_good L i2 (fun hh => hc (by rw [c2] at hh; exact hh)) t s).1]
 
+/-- the arguments in force after a query -/
+def nextW (cte : Bool) (cur w : Option Nat) : Option Nat :=
+  match w with
+  | some w' => if !cte && cur != some w' then some w' else cur
+  | none => cur
+
+/-- the answers expected of a sequence of queries with argument updates: each is the evolution
+under the arguments in force at that query (a constant system ignores arguments) -/
+def specW (As : Option Nat → Alg F) (cte : Bool) : Option Nat → List (Int × Int × Option Nat) → List F
+  | _, [] => []
+  | cur, (t, s, w) :: qs =>
+    let cur' := nextW cte cur w
+    (As (if cte then none else cur')).phi t s :: specW As cte cur' qs
+
+/-- The memo invariant relative to the arguments in force. -/
+def PInvW (As : Option Nat → Alg F) (q : PropW F) : Prop := PInv (algOf As q) q.p
+
+theorem applyW_inv (As : Option Nat → Alg F) (L : ∀ w, Laws (As w)) (cte : Bool) (q : PropW F)
+    (hcte : q.p.cte = cte) (hinv : PInvW As q) (w : Option Nat) :
+    PInvW As (applyW As q w) ∧ (applyW As q w).p.cte = cte ∧ (applyW As q w).w = nextW cte q.w w := by
+  unfold applyW nextW
+  cases w with
+  | none => exact ⟨hinv, hcte, rfl⟩
+  | some w' =>
+    simp only [hcte]
+    split
+    · rename_i hr
+      have hcf : cte = false := by
+        cases hq : cte <;> simp [hq] at hr ⊢
+      refine ⟨?_, by simp [resetW, hcte], rfl⟩
+      unfold PInvW algOf resetW
+      simp only [hcte, hcf, Bool.false_eq_true, if_false]
+      exact ⟨List.Forall₂.cons (by simp [Good, (L _).phi_self]) List.Forall₂.nil,
+        by simp [(L _).phi_self]⟩
+    · exact ⟨hinv, hcte, rfl⟩
+
+/-- **Argument updates**: with `U(t, t_start, **args)` every answer is the propagator of the system
+under the arguments in force — nothing memoised under earlier arguments leaks into it. -/
+theorem propagator_correct_args (As : Option Nat → Alg F) (L : ∀ w, Laws (As w)) (cte : Bool)
+    (hc : cte = true → ∀ w, CteLaw (As w)) (qs : List (Int × Int × Option Nat)) :
+    ∀ (q : PropW F), q.p.cte = cte → PInvW As q →
+      (callsW As q qs).2 = specW As cte q.w qs := by
+  induction qs with
+  | nil => intro q _ _; rfl
+  | cons hd qs ih =>
+    intro q hcte hinv
+    obtain ⟨t, s, w⟩ := hd
+    obtain ⟨i1, c1, w1⟩ := applyW_inv As L cte q hcte hinv w
+    have i1' : PInv (algOf As (applyW As q w)) (applyW As q w).p := i1
+    obtain ⟨a, b, c, _⟩ := call_good (L _) i1' (fun hh => hc (c1 ▸ hh) _) t s
+    have hnext : PInvW As { applyW As q w with p := (call (algOf As (applyW As q w)) (applyW As q w).p t s).1 } := by
+      unfold PInvW algOf
+      simp only [c]
+      exact b
+    have := ih { applyW As q w with p := (call (algOf As (applyW As q w)) (applyW As q w).p t s).1 }
+      (c.trans c1) hnext
+    unfold callsW callW
+    simp only [specW]
+    have a' : (call (algOf As (applyW As q w)) (applyW As q w).p t s).2 =
+        (algOf As (applyW As q w)).phi t s := a
+    rw [this, a']
+    simp only [algOf, c1, w1]
+
 /-- Composing the answers over adjacent intervals equals the answer over their union. -/
 theorem propagator_compose (A : Alg F) (L : Laws A) (cte : Bool) (hc : cte = true → CteLaw A)
     (memoize : Nat) (hist : List (Int × Int)) (a b c : Int) :
